@@ -8,7 +8,7 @@
    [new_reader (finalize w) = Some r] : NewReader on the sections Finalize produced;  theorem 4 says
    that going through the byte image changes nothing ([finalize_reader]). *)
 From Coq Require Import NArith List Lia.
-Require Import Pk.IndexFormat Pk.IndexFormatCodec Pk.IndexFormatHosts Pk.IndexFormatWriter Pk.IndexFormatData Pk.IndexFormatPackets Pk.IndexFormatLookup Pk.IndexFormatScan Pk.IndexFormatAccepts Pk.IndexFormatTimes Pk.IndexFormatChunks Pk.IndexFormatFits Pk.IndexFormatRefuted.
+Require Import Pk.IndexFormat Pk.IndexFormatCodec Pk.IndexFormatHosts Pk.IndexFormatWriter Pk.IndexFormatData Pk.IndexFormatPackets Pk.IndexFormatLookup Pk.IndexFormatScan Pk.IndexFormatAccepts Pk.IndexFormatTimes Pk.IndexFormatChunks Pk.IndexFormatFits Pk.IndexFormatPop Pk.IndexFormatRefuted.
 Import ListNotations.
 Open Scope N_scope.
 
@@ -53,6 +53,23 @@ Theorem C01_host_placement : forall gcap c s gs gs' k ci si,
   place_hosts gcap gs 0 c s = Some (gs', k, ci, si) ->
   Forall (group_ok gcap) gs' /\ groups_extend gs gs' /\ host_at gs' k ci = Some c /\ host_at gs' k si = Some s.
 Proof. exact place_hosts_host_at. Qed.
+
+(* the undo path of the host-group loop (writer.go: the client was pushed, the server does not fit -> `if added { g.pop() }`).
+   hg_pop drops the last host of a group; place_hosts_pop / add_streams_pop are AddStream with that explicit pop - the
+   writer the extracted model runs.  A pop takes back exactly the host this call pushed (never a host of another stream),
+   so the writer with pops IS the writer of all theorems, for every input list: *)
+Theorem C01_pop_undoes_only_its_own_add : forall gcap g h i g1,
+  hg_hosts g <> [] -> hg_add gcap g h = Some (i, true, g1) -> hg_pop g1 = g.
+Proof. exact pop_undoes_add. Qed.
+
+Theorem C01_writer_with_pops_is_the_writer : forall gcap L, add_streams_pop gcap new_writer L = add_streams gcap new_writer L.
+Proof. exact add_streams_pop_new. Qed.
+
+(* the host tables hold exactly the addresses of the streams written: nothing is lost by an undo, nothing else appears *)
+Theorem C01_host_tables_exact : forall gcap L w,
+  16 < gcap -> Forall (fun ids => wf_meta (snd ids)) L -> add_streams gcap new_writer L = Some w ->
+  forall x, In x (table_hosts (w_groups w)) <-> In x (addresses L).
+Proof. exact host_tables_exact. Qed.
 
 (* the (Start, Count, Flags) entries and the two host sections decode to the writer's tables *)
 Theorem C01_host_sections_decode : forall gcap w,
